@@ -242,6 +242,35 @@ def replay_lattice(w):
   return bad, f'same absolute temperature, reference profiles {w["profiles"]}, sigma {w["boundaries"]}, matmul={c["method"]}: max |total tendency difference| per field {diffs} (largest tendency {ref:.3e})'
 
 
+def replay_split(w):
+  """Native re-run for the all-N clauses (their counter-models are column entries, not states): three uneven level sets, a varying and a
+  constant reference profile, a random admissible state, both vertical product methods."""
+  jax = common.jx()
+  import jax.numpy as jnp
+  specs = common.physics_specs()
+  rng = np.random.RandomState(5)
+  msgs = []
+  for layers in (2, 3, 5):
+    g = common.make_grid(3, 4, 10, 7, 'gauss', 'real')
+    sig = common.sigma_levels('uneven', layers, 1)
+    T1 = common.reference_temperature('linear', layers, specs, 0)
+    T2 = np.full(layers, float(np.mean(T1)) + 3.0)
+    for method in ('dense', 'sparse'):
+      e1 = common.make_primitive(g, sig, T1, cls='dry', specs=specs, vertical_matmul_method=method)
+      e2 = common.make_primitive(g, sig, T2, cls='dry', specs=specs, vertical_matmul_method=method)
+      sp = tendency.primitive_space(e1, 'real', tracers=('q',))
+      s1 = tendency.primitive_state(sp, jnp.asarray(rng.randn(sp.n) * sp.scale * 0.3), with_time=False)
+      tv = s1.temperature_variation.at[:, 0, 0].add(jnp.asarray((T1 - T2) * SQRT4PI))
+      s2 = type(s1)(s1.vorticity, s1.divergence, tv, s1.log_surface_pressure, s1.tracers)
+      t1 = tendency.primitive_leaves(_total(e1)(s1))
+      t2 = tendency.primitive_leaves(_total(e2)(s2))
+      diffs = {k: float(jnp.abs(t1[k] - t2[k]).max()) for k in t1}
+      ref = max(float(jnp.abs(v).max()) for v in t1.values())
+      if max(diffs.values()) > 1e-9 * max(1.0, ref):
+        msgs.append(f'{layers} uneven layers, matmul={method}, profiles {np.round(T1, 3).tolist()} vs {np.round(T2, 3).tolist()}: max |total tendency difference| per field {diffs} (largest tendency {ref:.3e})')
+  return bool(msgs), ('; '.join(msgs[:3]) if msgs else 'explicit + implicit tendencies agree for the sampled profile pairs')
+
+
 def clauses(tier, seed):
   fns = [PE + 'PrimitiveEquations.explicit_terms', PE + 'PrimitiveEquations.implicit_terms', PE + 'get_temperature_implicit',
          PE + 'get_temperature_implicit_weights', PE + 'get_geopotential_diff', PE + 'PrimitiveEquations.nodal_temperature_vertical_tendency',
@@ -251,13 +280,26 @@ def clauses(tier, seed):
       Clause('static+numeric:dry/time total tendency independent of the reference profile (degree-3 lattice)', 'numeric', fns, run_lattice,
              replay=replay_lattice, group='jax-a', heavy=True),
       Clause('numeric:moist classes, sampled states', 'numeric', fns, run_moist_sampled, replay=replay_moist, group='jax-b', heavy=True),
-  ]
+  ] + _deductive()
+
+
+def _deductive():
+  """All layer counts: the temperature equation of a column does not depend on the reference split (contracts/column_contracts.py); the
+  callee contracts it rests on -- the documented matrix H, the cumulative-sum form of its product, the partial-sum lemma -- are
+  discharged by the clauses of contracts/vertical_matrix_contracts.py listed next to it."""
+  from contracts import column_contracts, vertical_matrix_contracts
+  out = column_contracts.clauses()['C04'] + vertical_matrix_contracts.clauses(only=('get_sigma_ratios', 'get_temperature_implicit', 'lemma:row sums'))
+  for c in out:
+    c.replay = replay_split
+  return out
 
 
 MANIFEST = {
-    'engine': 'jxa',
-    'technique': 'contract-based: polynomial degree of explicit+implicit proved on the jaxpr, identity decided on the unisolvent degree-3 lattice of the admissible subspace; moist sampled',
+    'engine': 'pyvc+jxa',
+    'technique': ('contract-based deductive: the temperature equation of a column (vertical advection + adiabatic + implicit term) proved independent of the reference profile for every '
+                  'number of layers from the real source (pyvc column / matrix mode: ghost prefix sums, induction lemmas, case-split ring normal form + z3); polynomial degree of explicit+implicit '
+                  'proved on the jaxpr and the whole identity decided on the unisolvent degree-3 lattice of the admissible subspace per configuration; moist sampled'),
     'text': ('other: complete over admissible states at each configuration (degree proved statically, lattice unisolvent), bounded over profile pairs, '
              'sigma sets, grids, matmul methods; moist classes sampled only (rational in q).'),
-    'note': 'trusted: A1/A2, jxa degree rules, lattice unisolvence; the (0,0) coefficient of a constant is sqrt(4 pi) (verified in C01/C02 oracle).',
+    'note': 'trusted: A1/A2, jxa degree rules, lattice unisolvence; column mode (operations after to_nodal are pointwise in the horizontal), callee contracts _dot_cumsum / centered_vertical_advection (C13, C07), horizontal operators abstract (C01/C02), sympy expansion as the ring normal form; the (0,0) coefficient of a constant is sqrt(4 pi) (verified in C01/C02 oracle).',
 }
